@@ -425,3 +425,154 @@ def c10_run(driver, w, snap, ev, dev, ctx):
                    'while repeating %s' % (ncmd, statuses, pending_cmds,
                                            cev)})
     return out
+
+
+# ---------------------------------------------------------------------------
+# C16: every shell command of a job fails / hangs while printing the clone
+# URL with credentials
+# ---------------------------------------------------------------------------
+def sentinels(w):
+    from urllib.parse import quote_plus, quote
+    pw = w.password
+    out = {pw, quote_plus(pw), quote(pw)}
+    return sorted(x for x in out if len(x) >= 4)
+
+
+class FdCapture:
+    """Capture file descriptors 1 and 2 (and sys.stdout/err) into a file."""
+    def __init__(self, path):
+        self.path = path
+
+    def __enter__(self):
+        import sys
+        sys.stdout.flush()
+        sys.stderr.flush()
+        self.saved = (os.dup(1), os.dup(2))
+        self.f = open(self.path, 'wb')
+        os.dup2(self.f.fileno(), 1)
+        os.dup2(self.f.fileno(), 2)
+        return self
+
+    def __exit__(self, *a):
+        import sys
+        sys.stdout.flush()
+        sys.stderr.flush()
+        os.dup2(self.saved[0], 1)
+        os.dup2(self.saved[1], 2)
+        os.close(self.saved[0])
+        os.close(self.saved[1])
+        self.f.close()
+
+    def text(self):
+        with open(self.path, 'rb') as f:
+            return f.read().decode('utf-8', 'replace')
+
+
+def status_pages(w):
+    """Status page (html + txt) rendered by the real Flask app."""
+    os.environ.setdefault('WEBHOOK_LOGIN', 'wl')
+    os.environ.setdefault('WEBHOOK_PWD', 'wp')
+    os.environ.setdefault('BERT_E_CLIENT_ID', 'ci')
+    os.environ.setdefault('BERT_E_CLIENT_SECRET', 'cs')
+    try:
+        from bert_e.server import setup_server
+        app = setup_server(w.berte)
+        c = app.test_client()
+        return [c.get('/').get_data(as_text=True),
+                c.get('/?output=txt').get_data(as_text=True)]
+    finally:
+        for k in ('BERT_E_CLIENT_ID', 'BERT_E_CLIENT_SECRET'):
+            os.environ.pop(k, None)
+
+
+def c16_plan(driver, w, snap, ev, res):
+    out = {'devs': [], 'ctx': {}, 'stats': {}}
+    if not E.is_job(ev):
+        return out
+    n = len(res['obs'].get('cmds', []))
+    if not n:
+        return out
+    out['stats']['c16_jobs'] = 1
+    out['devs'] = [[f, i] for i in range(n) for f in ('fail', 'hang')]
+    out['ctx'] = {'pre_pending': res['pre']['pending'],
+                  'cev': concretize(ev, res['pre']),
+                  'cmds': [c['cmd'][:60] for c in res['obs']['cmds']]}
+    return out
+
+
+def c16_run(driver, w, snap, ev, dev, ctx):
+    out = {'violations': [], 'stats': {'c16_deviations': 1,
+                                       'c16_' + dev[0]: 1}}
+    w.restore(snap)
+    w.new_berte()
+    w.set_pending(ctx['pre_pending'])
+    url = w.cred_url
+    target = dev[1]
+    hit = {}
+
+    def hook(idx, command, kwargs, rec):
+        if idx != target:
+            return None
+        hit['cmd'] = command
+        # the command line stays the original text (so that it contains the
+        # URL only if the real command does); the behaviour comes from an
+        # environment variable
+        env = dict(os.environ)
+        if dev[0] == 'fail':
+            env['VERIF_FAULT'] = (
+                "echo \"fatal: unable to access '%s/': The requested URL "
+                "returned error: 403\"; echo \"remote: %s\" >&2; exit 128"
+                % (url, url))
+        else:
+            kwargs['timeout'] = 0.3
+            env['VERIF_FAULT'] = (
+                "echo \"fatal: unable to access '%s/'\"; sleep 2" % url)
+        kwargs['env'] = env
+        return 'eval "$VERIF_FAULT" # ' + command.replace('\n', ' ')
+    w.cmd_hook = hook
+    w.log_records = []
+    cap = FdCapture(os.path.join(w.tmp, 'fdcap.%d' % os.getpid()))
+    try:
+        with cap:
+            o = E.apply(w, ctx['cev'])
+    finally:
+        w.cmd_hook = None
+    records, w.log_records = w.log_records, None
+    if 'cmd' not in hit:
+        out['stats']['c16_not_placed'] = 1
+        return out
+    job = w.berte.tasks_done[0] if w.berte.tasks_done else None
+    channels = {
+        'log': '\n'.join(records),
+        'stdout/stderr': cap.text(),
+        'job.status': str(o.get('status')),
+        'job.details': str(o.get('details')),
+        'job.as_json': job.as_json() if job is not None else '',
+        'api/jobs': w.berte.get_jobs_as_json(),
+        'comments': '\n'.join(c.content['raw']
+                              for c in w.mock.Comment.items),
+    }
+    try:
+        pages = status_pages(w)
+        channels['status page'] = '\n'.join(pages)
+    except Exception as e:
+        out['stats']['c16_status_page_error'] = 1
+        channels['status page'] = ''
+    for name, text in channels.items():
+        for s in sentinels(w):
+            if s in text:
+                at = text.index(s)
+                ctxt = text[max(0, at - 160):at + len(s) + 40].replace(
+                    '\n', ' | ')
+                kind = 'traceback' if 'Traceback' in text else 'message'
+                culprit = 'TimeoutExpired' if 'TimeoutExpired' in text \
+                    else 'other'
+                out['violations'].append({
+                    'property': 'C16',
+                    'fingerprint': 'leak:%s:%s:%s' % (name, dev[0], culprit),
+                    'msg': 'password visible in %s when command #%d (%s) '
+                           '%ss during %s [job status %s]: ...%s...' % (
+                               name, target, hit['cmd'][:50], dev[0],
+                               ctx['cev'], o.get('status'), ctxt)})
+                break
+    return out
